@@ -223,12 +223,12 @@ def build(tier="quick", seed=0):
                         replay=lambda w: {"call": "c05_digest_bytes", "args": {}}, functions=FU, mode="representative value"))
 
     # ---- A2e. augmented assignment to a typed list field is an assignment: the elements it adds are converted or the assignment is rejected
-    for typename, extra in (("uint16[]", "[70000]"), ("uint16[]", "[80, 'x']"), ("string[]", "[b'by\\xfftes']")):
+    for typename, extra in (("uint16[]", "[70000]"), ("uint16[]", "[80, 'x']"), ("string[]", "[b'by\\xfftes']"), ("uint16[]", "[2, 3, 70000, 4]"), ("net.ipaddress[]", "['1.2.3.4', 'no address']"), ("uint32[]", "(v for v in (7, -1))")):
         name = f"C05.iadd[{typename} += {extra}]"
 
         def th(typename=typename, extra=extra):
             D = it.call(RD, ["c05/rec", [(typename, "x"), ("varint", "n")]], {})
-            rec = it.call(D, [], {"x": [1] if typename.startswith("uint") else ["a"], "n": 1})
+            rec = it.call(D, [], {"x": [1] if typename.startswith("uint") else ["9.9.9.9"] if typename.startswith("net") else ["a"], "n": 1})
             before = snapshot(rec)
             cur = rec.attrs["x"]
             try:
@@ -236,10 +236,11 @@ def build(tier="quick", seed=0):
                 new_v = it.call(PBound(f, cur), [pyvalue(extra)], {}) if isinstance(f, PFunc) else (cur.base.extend(pyvalue(extra)) or cur)  # x += y: list.__iadd__ extends in place and hands the same object back
                 it.setattr_(rec, "x", new_v)
             except PyRaise as e:
-                return "rejected", None, None
+                # a refused addition leaves the record as it was: same list object, same elements
+                return "rejected", None if snapshot(rec) == before else f"the refused addition changed the record: the field holds {len(rec.attrs['x'].base)} element(s), {len(before and [b for b in before if b[0] == 'x'][0][2])} before", None
             return "accepted", well_typed(rec, "x", typename), packable(rec)
 
-        pack.add(Obligation(name, lambda tier, name=name, th=th, typename=typename, extra=extra: prove_paths(name, th, lambda p: (p.value[0] == "rejected" or not (p.value[1] or p.value[2]), f"after x += {extra} the {typename} field is not well typed / packable: {p.value[1] or p.value[2]}"), lambda m, p: {}),
+        pack.add(Obligation(name, lambda tier, name=name, th=th, typename=typename, extra=extra: prove_paths(name, th, lambda p: (not (p.value[1] or p.value[2]), f"after x += {extra} the {typename} field is not well typed / packable / unchanged: {p.value[1] or p.value[2]}"), lambda m, p: {}),
                             replay=lambda w, typename=typename, extra=extra: {"call": "c05_iadd", "args": {"ftype": typename, "extra": extra}}, functions=FU, mode="representative additions"))
 
     # ---- A3. a number that is not an integer offered to an integer-valued field: converted to an integer or rejected - never kept as it is
